@@ -2,14 +2,14 @@ SPECIFICATION Spec
 CONSTANTS
   PlainNames <- MC_Names2
   HostileNames <- MC_NoHostile
-  MaxOps = 2
+  MaxOps = 3
   MaxIno = 8
-  Cfg <- MC_Cfg_plain
+  Cfg <- MC_Cfg_seal_noopen
   TaintOn = TRUE
-  Mode = "c05"
+  Mode = "c18"
   InitS <- MC_S_plain
-  ScenCfg <- MC_Scen_plain
+  ScenCfg <- MC_Scen_seal_noopen
   ScenTree <- MC_Tree_plain
 VIEW View
-INVARIANTS TreeOK MirrorOK NameGateOK Report
+INVARIANTS TreeOK Sealed SealRulesOK Report
 CHECK_DEADLOCK FALSE
